@@ -461,7 +461,12 @@ func (vm *VM) appendSlice(first int8, length int, slice reflect.Value) reflect.V
 		default:
 			regs := vm.regs.general[vm.fp[3]+Addr(first):]
 			for i, j := 0, ol; i < length; i, j = i+1, j+1 {
-				slice.Index(j).Set(regs[i])
+				if v := regs[i]; v.IsValid() {
+					slice.Index(j).Set(v)
+				} else {
+					// v is the nil interface value.
+					slice.Index(j).SetZero()
+				}
 			}
 		}
 		return slice
